@@ -187,7 +187,12 @@ func driveTMClient(t *testing.T, in, out string, seed int64) {
 				// governance moves the client to the counterparty's next revision (chain id verif-2) at block h, dated now
 				nx := w.valset(st["next"].(M))
 				chainU := fmt.Sprintf("verif-%d", 1+num(st["rev"]))
-				hdU := SignedHeader(chainU, num(st["h"]), c.Header.Time, w.rootBytes(str(st["root"])), nx, nx, nil)
+				// the consensus state a proposal carries is older than the block that executes it (TMClient.UpgradeAge)
+				dated := c.Header.Time
+				if num(st["h"])%2 == 0 && !dated.Add(-2*tmUnit).Before(w.Base) {
+					dated = dated.Add(-2 * tmUnit)
+				}
+				hdU := SignedHeader(chainU, num(st["h"]), dated, w.rootBytes(str(st["root"])), nx, nx, nil)
 				csU := xibctmtypes.NewClientState(chainU, tmTrustLevel(), 3*tmUnit, 4*tmUnit, 1*tmUnit,
 					clienttypes.NewHeight(uint64(1+num(st["rev"])), uint64(num(st["h"]))), commitmenttypes.GetSDKSpecs(), commitmenttypes.MerklePrefix{KeyPrefix: []byte("xibc")}, uint64(tmUnit))
 				prop, err := clienttypes.NewUpgradeClientProposal("t", "d", w.Name, csU, hdU.ConsensusState())
